@@ -15,6 +15,17 @@ CHECKS = {
             "DESIGN.md §4 C16"),
 }
 
+CHECKS.update({
+    "C15": ("codec", "differential runtime monitor (via cfg-guarded re-export) vs octets' strict RFC 7541 Huffman decoder and a 128-bit prefixed-integer reference; complete enumeration of short strings / Huffman payloads, padding and EOS mutations",
+            "Every string/integer encode and decode executed is compared with independent implementations; accept/reject and output must agree. Short domains are enumerated completely (strings <= 2 B, H=1 payloads <= 2 B quick / <= 3 B thorough), the rest generated. Held-on-observed.",
+            "Trusts octets 0.3.7 Huffman tables and refimpl/qpack.rs integer codec; implementation limits above 2^62 / >= 10 continuation bytes are don't-care; two known findings (overlong padding, EOS at end) are listed in known_findings.json.",
+            "DESIGN.md §4 C15"),
+    "C18": ("codec", "differential runtime monitor: Datagram encode drained under PRNG-chosen Buf consumption patterns vs ref_varint(S/4)||P; decode vs reference incl. range/truncation errors; complete enumeration k < 2^16 and byte strings <= 2/3 B",
+            "Every encoded datagram observed byte-for-byte under chunk/advance/copy patterns, every decode compared with the reference; complete over the small domains the quantifier names, sampled elsewhere. Held-on-observed.",
+            "Trusts refimpl/varint.rs; only client-initiated bidirectional ids are passed to Datagram::new (its documented domain).",
+            "DESIGN.md §4 C18"),
+})
+
 NOT_YET = {}
 
 def main():
